@@ -41,11 +41,105 @@ pub struct DelayBackend {
     pub calls: Arc<AtomicU64>,
     /// every write of a PACK file sleeps `pack_write_ms ..= 2.5 * pack_write_ms` milliseconds (by seed); 0 = off
     pub pack_write_ms: u64,
+    /// slow index-file writes / one late index-file read / failing index removals, see `Adv`
+    pub adv: Option<Arc<Adv>>,
+}
+
+/// Latency patterns on INDEX files, stated as conditions with a time-out instead of bare sleeps (a loaded host stretches
+/// every sleep, a condition keeps the intended overlap):
+/// * `idx_write = (t1, t2, k)`: index-file writes are slow and the 2nd is slower than the 1st — the 1st write returns
+///   when a 2nd one has begun or after `t1` ms, the 2nd when the 1st is stored and `k` more pack files have been written since
+///   or after `t2` ms; later index writes are immediate.  Code that holds the indexer lock while it saves never has two
+///   index writes in flight: then both time-outs simply run out.
+/// * `late_index = (id, nap)`: that index file is listed last, and its read returns `nap` ms after every other index file of the
+///   listing has been read (or after 3 s): it ARRIVES last at `stream_all`'s consumer, also with a single rayon worker.
+/// * `fail_index_remove`: removals of index files fail (a prune that loses its connection before it removes the old index).
+#[derive(Debug, Default)]
+pub struct Adv {
+    st: std::sync::Mutex<AdvSt>,
+    cv: std::sync::Condvar,
+    pub idx_write: Option<(u64, u64, usize)>,
+    pub late_index: Option<(Id, u64)>,
+    pub fail_index_remove: std::sync::atomic::AtomicBool,
+}
+
+#[derive(Debug, Default)]
+struct AdvSt {
+    iw_started: usize,
+    iw_done: usize,
+    packs_after: usize,
+    others: usize,
+    idx_read: BTreeSet<Id>,
+}
+
+impl Adv {
+    fn before_write(&self, tpe: FileType) {
+        let Some((t1, t2, k)) = self.idx_write else { return };
+        if tpe != FileType::Index {
+            return;
+        }
+        let mut g = self.st.lock().unwrap();
+        let n = g.iw_started;
+        g.iw_started += 1;
+        self.cv.notify_all();
+        match n {
+            0 => _ = self.cv.wait_timeout_while(g, Duration::from_millis(t1), |s| s.iw_started < 2).unwrap(),
+            1 => _ = self.cv.wait_timeout_while(g, Duration::from_millis(t2), |s| s.iw_done < 1 || s.packs_after < k).unwrap(),
+            _ => {}
+        }
+    }
+    fn after_write(&self, tpe: FileType) {
+        if self.idx_write.is_none() {
+            return;
+        }
+        let mut g = self.st.lock().unwrap();
+        match tpe {
+            FileType::Index => g.iw_done += 1,
+            FileType::Pack if g.iw_done >= 1 => g.packs_after += 1,
+            _ => return,
+        }
+        self.cv.notify_all();
+    }
+    fn listed(&self, tpe: FileType, list: &mut Vec<(Id, u32)>) {
+        let Some((late, _)) = self.late_index else { return };
+        if tpe != FileType::Index {
+            return;
+        }
+        if let Some(i) = list.iter().position(|(id, _)| *id == late) {
+            let x = list.remove(i);
+            list.push(x);
+        }
+        let mut g = self.st.lock().unwrap();
+        g.idx_read.clear();
+        g.others = list.iter().filter(|(id, _)| *id != late).count();
+    }
+    fn before_read(&self, tpe: FileType, id: &Id) {
+        let Some((late, nap)) = self.late_index else { return };
+        if tpe != FileType::Index || *id != late {
+            return;
+        }
+        let g = self.st.lock().unwrap();
+        let (g, _) = self.cv.wait_timeout_while(g, Duration::from_secs(3), |s| s.idx_read.len() < s.others).unwrap();
+        drop(g);
+        std::thread::sleep(Duration::from_millis(nap));
+    }
+    fn after_read(&self, tpe: FileType, id: &Id) {
+        let Some((late, _)) = self.late_index else { return };
+        if tpe != FileType::Index || *id == late {
+            return;
+        }
+        _ = self.st.lock().unwrap().idx_read.insert(*id);
+        self.cv.notify_all();
+    }
 }
 
 impl DelayBackend {
     pub fn new(seed: u64, max_us: u64) -> Self {
-        Self { inner: MemBackend::new(), seed, max_us, calls: Arc::new(AtomicU64::new(0)), pack_write_ms: 0 }
+        Self { inner: MemBackend::new(), seed, max_us, calls: Arc::new(AtomicU64::new(0)), pack_write_ms: 0, adv: None }
+    }
+    /// another handle on the same storage with its own latency pattern
+    pub fn with_adv(&self, adv: Adv) -> Self {
+        Self { inner: self.inner.clone(), seed: self.seed, max_us: self.max_us, calls: self.calls.clone(), pack_write_ms: self.pack_write_ms, adv: Some(Arc::new(adv)) }
     }
     fn pack_write_nap(&self) {
         if self.pack_write_ms == 0 {
@@ -82,11 +176,22 @@ impl ReadBackend for DelayBackend {
     }
     fn list_with_size(&self, tpe: FileType) -> RusticResult<Vec<(Id, u32)>> {
         self.nap();
-        self.inner.list_with_size(tpe)
+        let mut l = self.inner.list_with_size(tpe)?;
+        if let Some(a) = &self.adv {
+            a.listed(tpe, &mut l);
+        }
+        Ok(l)
     }
     fn read_full(&self, tpe: FileType, id: &Id) -> RusticResult<Bytes> {
         self.nap();
-        self.inner.read_full(tpe, id)
+        if let Some(a) = &self.adv {
+            a.before_read(tpe, id);
+        }
+        let r = self.inner.read_full(tpe, id);
+        if let Some(a) = &self.adv {
+            a.after_read(tpe, id);
+        }
+        r
     }
     fn read_partial(&self, tpe: FileType, id: &Id, cacheable: bool, offset: u32, length: u32) -> RusticResult<Bytes> {
         self.nap();
@@ -102,10 +207,20 @@ impl WriteBackend for DelayBackend {
         if tpe == FileType::Pack {
             self.pack_write_nap();
         }
-        self.inner.write_bytes(tpe, id, cacheable, buf)
+        if let Some(a) = &self.adv {
+            a.before_write(tpe);
+        }
+        let r = self.inner.write_bytes(tpe, id, cacheable, buf);
+        if let Some(a) = &self.adv {
+            a.after_write(tpe);
+        }
+        r
     }
     fn remove(&self, tpe: FileType, id: &Id, cacheable: bool) -> RusticResult<()> {
         self.nap();
+        if tpe == FileType::Index && self.adv.as_ref().is_some_and(|a| a.fail_index_remove.load(Ordering::SeqCst)) {
+            return Err(rustic_core::RusticError::new(rustic_core::ErrorKind::Backend, "injected: connection lost before the index file was removed"));
+        }
         self.inner.remove(tpe, id, cacheable)
     }
 }
@@ -131,6 +246,55 @@ impl DH {
     }
     pub fn open(&self) -> RusticResult<Repository<OpenStatus>> {
         Repository::new(&Self::opts(), &self.backends())?.open(&Credentials::Masterkey(self.key.clone()))
+    }
+}
+
+/// `LogSource` whose file reads sleep first (seeded, at most `max_us` µs; off for `max_us = 0`): a delay BETWEEN pipeline stages — the
+/// file-archiver workers of the archiver's ordered `parallel_map` finish out of order, the tree archiver must still see source order.
+struct SlowSource {
+    inner: LogSource,
+    seed: u64,
+    max_us: u64,
+}
+struct SlowReader {
+    inner: crate::dispatch::c11::LogReader,
+    us: u64,
+}
+impl std::io::Read for SlowReader {
+    fn read(&mut self, buf: &mut [u8]) -> std::io::Result<usize> {
+        if self.us > 0 {
+            std::thread::sleep(Duration::from_micros(self.us));
+            self.us = 0;
+        }
+        self.inner.read(buf)
+    }
+}
+impl SlowSource {
+    /// reads of 1 in 3 latency seeds are slow (never the undelayed run 0)
+    fn new(entries: Vec<SE>, seed: u64) -> Self {
+        Self { inner: LogSource::new(entries), seed, max_us: if seed % 3 == 1 { 2000 } else { 0 } }
+    }
+}
+impl rustic_core::ReadSource for SlowSource {
+    type Open = SlowReader;
+    type Iter = std::vec::IntoIter<RusticResult<rustic_core::ReadSourceEntry<SlowReader>>>;
+    fn size(&self) -> RusticResult<Option<u64>> {
+        self.inner.size()
+    }
+    fn entries(&self) -> Self::Iter {
+        let (seed, max_us) = (self.seed, self.max_us);
+        self.inner
+            .entries()
+            .enumerate()
+            .map(|(i, e)| {
+                e.map(|e| {
+                    let mut r = Rng::new(seed ^ (i as u64).wrapping_mul(0xA24B_AED4));
+                    let us = if max_us == 0 || r.chance(1, 2) { 0 } else { r.below(max_us + 1) };
+                    rustic_core::ReadSourceEntry { path: e.path, node: e.node, open: e.open.map(|inner| SlowReader { inner, us }) }
+                })
+            })
+            .collect::<Vec<_>>()
+            .into_iter()
     }
 }
 
@@ -715,7 +879,7 @@ fn run_wd(sa: &[SE], sb: Option<&[SE]>, repack: Option<u64>) -> u64 {
 
 /// One run in this process: the commands and then the oracles, both inside a pool of `threads` workers (0: as is),
 /// each under a watchdog.  `Ok((tree id, referenced (type, id) set))` or the observation to report.
-fn one_run(sa: &[SE], sb: Option<&[SE]>, run: Run, threads: usize, k: usize) -> RunResult {
+fn one_run(sa: &[SE], sb: Option<&[SE]>, run: Run, threads: usize, k: usize, copy: bool) -> RunResult {
     let (sa2, sb2) = (sa.to_vec(), sb.map(<[SE]>::to_vec));
     let Run { seed, dsize, tsize, repack, .. } = run;
     let wd = run_wd(sa, sb, repack);
@@ -727,16 +891,32 @@ fn one_run(sa: &[SE], sb: Option<&[SE]>, run: Run, threads: usize, k: usize) -> 
             let force = BackupOptions::default().parent_opts(ParentOptions::default().force(true));
             let repo = h.open().and_then(|r| r.to_indexed_ids()).map_err(|e| crate::util::errkind(&e))?;
             let snap_a = repo
-                .archive(&force, &LogSource::new(sa2.clone()), new_snap(), &[PathBuf::from(SRC_ROOT)])
+                .archive(&force, &SlowSource::new(sa2.clone(), seed), new_snap(), &[PathBuf::from(SRC_ROOT)])
                 .map_err(|e| crate::util::errkind(&e))?;
             drop(repo);
+            if copy {
+                // `copy` of the snapshot into a fresh repository with the pack sizes swapped (tree packs of the data pack size and
+                // vice versa) and its own latencies; the oracles then look at the TARGET
+                let mut be2 = DelayBackend::new(seed ^ 0xC0, if seed == 0 { 0 } else { 1500 });
+                be2.pack_write_ms = repack.unwrap_or(0);
+                let h2 = DH::init(be2, &run_cfg(tsize, dsize)).map_err(|e| crate::util::errkind(&e))?;
+                let src = h.open().and_then(|r| r.to_indexed()).map_err(|e| crate::util::errkind(&e))?;
+                let dst = h2.open().and_then(|r| r.to_indexed_ids()).map_err(|e| crate::util::errkind(&e))?;
+                src.copy(&dst, [&snap_a]).map_err(|e| crate::util::errkind(&e))?;
+                drop(dst);
+                let snaps = h2.open().and_then(|r| r.get_all_snapshots()).map_err(|e| crate::util::errkind(&e))?;
+                return match snaps.as_slice() {
+                    [s] => Ok((h2, s.clone())),
+                    _ => Err(format!("oracle-fail:run{k}:copy-left-{}-snapshots", snaps.len())),
+                };
+            }
             let Some(sb2) = sb2 else {
                 return Ok((h, snap_a));
             };
             std::thread::sleep(Duration::from_millis(2));
             let repo = h.open().and_then(|r| r.to_indexed_ids()).map_err(|e| crate::util::errkind(&e))?;
             let snap_b = repo
-                .archive(&BackupOptions::default(), &LogSource::new(sb2), new_snap(), &[PathBuf::from(SRC_ROOT)])
+                .archive(&BackupOptions::default(), &SlowSource::new(sb2, seed ^ 1), new_snap(), &[PathBuf::from(SRC_ROOT)])
                 .map_err(|e| crate::util::errkind(&e))?;
             drop(repo);
             // forget A, prune with repacking allowed and no grace periods
@@ -760,6 +940,7 @@ fn one_run(sa: &[SE], sb: Option<&[SE]>, run: Run, threads: usize, k: usize) -> 
     });
     let (h, snap) = match res {
         None => return Err(format!("oracle-fail:run{k}:timeout")),
+        Some(Err(e)) if e.starts_with("oracle-fail") => return Err(e),
         Some(Err(e)) => return Err(format!("run{k}:{e}")),
         Some(Ok(x)) => x,
     };
@@ -809,14 +990,19 @@ fn exec_solo(k: &str, a: &str, b: &str, run: &str) -> String {
     let (Ok(k), Some(sa), Some(runs)) = (k.parse::<usize>(), parse_src(a), parse_runs(run)) else {
         return "bad-op".into();
     };
-    let sb = if b == "~" { None } else { parse_src(b) };
-    if (b != "~" && sb.is_none()) || runs.len() != 1 || runs[0].pool != Pool::Default {
+    let sb = if b == "~" || b == "=" { None } else { parse_src(b) };
+    if (b != "~" && b != "=" && sb.is_none()) || runs.len() != 1 || runs[0].pool != Pool::Default {
         return "bad-op".into();
     }
-    enc_result(&one_run(&sa, sb.as_deref(), runs[0], 0, k))
+    enc_result(&one_run(&sa, sb.as_deref(), runs[0], 0, k, b == "="))
 }
 
 fn exec_run(src: &str, runs: &str, src_b: Option<&str>) -> String {
+    exec_run_mode(src, runs, src_b, false)
+}
+
+/// `copy`: every run is backup + `copy` into a second repository (no second source)
+fn exec_run_mode(src: &str, runs: &str, src_b: Option<&str>, copy: bool) -> String {
     let (Some(sa), Some(runs)) = (parse_src(src), parse_runs(runs)) else {
         return "bad-op".into();
     };
@@ -830,10 +1016,10 @@ fn exec_run(src: &str, runs: &str, src_b: Option<&str>) -> String {
     let mut first: Option<(Id, BTreeSet<(u8, Id)>)> = None;
     for (k, run) in runs.iter().enumerate() {
         let res = match run.pool {
-            Pool::Default => one_run(&sa, sb.as_deref(), *run, 0, k),
-            Pool::Installed(n) => one_run(&sa, sb.as_deref(), *run, n, k),
+            Pool::Default => one_run(&sa, sb.as_deref(), *run, 0, k, copy),
+            Pool::Installed(n) => one_run(&sa, sb.as_deref(), *run, n, k, copy),
             Pool::Global(n) => {
-                let line = format!("c13 solo {k} {src} {} {}", src_b.unwrap_or("~"), run.solo_token());
+                let line = format!("c13 solo {k} {src} {} {}", src_b.unwrap_or(if copy { "=" } else { "~" }), run.solo_token());
                 // the child's own watchdogs (commands, then oracles) report first; this is the backstop
                 match in_child(n, 2 * run_wd(&sa, sb.as_deref(), run.repack) + 10, &line) {
                     Ok(s) => dec_result(&s),
@@ -888,7 +1074,7 @@ fn exec_chk(delay_ms: &str) -> String {
     }
     let mut hd = h.clone();
     // constant delay: every read sleeps delay_ms
-    hd.be = DelayBackend { inner: h.be.inner.clone(), seed: 0, max_us: 0, calls: h.be.calls.clone(), pack_write_ms: 0 };
+    hd.be = DelayBackend { inner: h.be.inner.clone(), seed: 0, max_us: 0, calls: h.be.calls.clone(), pack_write_ms: 0, adv: None };
     let slow = SlowReads { inner: hd.be.clone(), ms: delay_ms };
     let key = h.key.clone();
     let res = watchdog(WD_SECS, move || -> Result<usize, String> {
@@ -946,6 +1132,336 @@ impl WriteBackend for SlowReads {
     fn remove(&self, tpe: FileType, id: &Id, cacheable: bool) -> RusticResult<()> {
         self.inner.remove(tpe, id, cacheable)
     }
+}
+
+
+// ------------------------------------------------------------------------------------------------
+// big: an index file becomes due in the middle of the run while both packers flush packs; index writes are slow
+
+/// watchdog seconds of a `big` case of n directories (each of: commands, oracles); an idle host needs 10-20 s for 25,000
+fn big_wd(n: u64) -> u64 {
+    WD_SECS + n / 60
+}
+
+/// `n` directories `w/d<i>` with one small file each, every file with content of its own: n data blobs, n + 3 trees
+fn big_src(n: u64) -> Vec<SE> {
+    use crate::dispatch::c11::K;
+    let mut v = Vec::with_capacity(2 * n as usize + 1);
+    v.push(SE { path: vec![b"w".to_vec()], kind: K::Dir, mtime: 100, ctime: 200, inode: 7, content: vec![] });
+    for i in 0..n {
+        let d = format!("d{i:06}").into_bytes();
+        v.push(SE { path: vec![b"w".to_vec(), d.clone()], kind: K::Dir, mtime: 100, ctime: 200, inode: 1_000_000 + i, content: vec![] });
+        v.push(SE { path: vec![b"w".to_vec(), d, b"f".to_vec()], kind: K::File, mtime: 100, ctime: 200, inode: 2_000_000 + i, content: vec![1000 + i] });
+    }
+    v
+}
+
+/// `c13 big <seed[.pool]> <backup|prune|copy> <dirs> <t1 ms> <t2 ms> <k>`: one blob per pack, more than `MAX_COUNT` blobs in ONE
+/// command, so that an index file is saved by `Indexer::add` in the middle of the run while the data packer's and the tree
+/// packer's file writers both keep adding packs; index writes follow `Adv::idx_write = (t1, t2, k)`.
+/// `backup`: the backup itself; `prune`: an undisturbed backup, then a prune that repacks every pack (`repack_all`, `fast_repack`);
+/// `copy`: an undisturbed backup, then `copy` into a second repository.  Oracles on the repository the command wrote: every pack
+/// file in storage is listed by the stored index files and vice versa, `check` clean (trees; no `--read-data`), the snapshot
+/// references n + 3 trees and n data blobs.
+fn exec_big(seed: &str, cmd: &str, dirs: &str, t1: &str, t2: &str, k: &str) -> String {
+    let num = |y: &str, hi: u64| if !y.is_empty() && y.bytes().all(|b| b.is_ascii_digit()) { y.parse::<u64>().ok().filter(|v| *v <= hi) } else { None };
+    let (Some((seed, pool, wd)), Some(n), Some(t1), Some(t2), Some(k)) =
+        (parse_seed_pool(seed), num(dirs, 100_000).filter(|n| *n >= 1), num(t1, 10_000), num(t2, 10_000), num(k, 100))
+    else {
+        return "bad-op".into();
+    };
+    if !matches!(cmd, "backup" | "prune" | "copy") || wd != 0 {
+        return "bad-op".into();
+    }
+    let threads = match pool {
+        Pool::Default => 0,
+        Pool::Installed(n) => n,
+        Pool::Global(g) => {
+            return match in_child(g, 2 * big_wd(n) + 10, &format!("c13 big {seed}.0 {cmd} {n} {t1} {t2} {k}")) {
+                Ok(s) => s,
+                Err(e) if e == "timeout" => "oracle-fail:timeout".into(),
+                Err(e) => e,
+            };
+        }
+    };
+    let cmd = cmd.to_string();
+    let res = watchdog(big_wd(n), move || -> Result<(DH, SnapshotFile), String> {
+        in_pool(threads, move || {
+            let ek = |e: Box<rustic_core::RusticError>| crate::util::errkind(&e);
+            let adv = || Adv { idx_write: Some((t1, t2, k as usize)), ..Adv::default() };
+            let src = big_src(n);
+            let h = DH::init(DelayBackend::new(seed, 0), &run_cfg(1, 1)).map_err(ek)?;
+            let hb = if cmd == "backup" { DH { be: h.be.with_adv(adv()), key: h.key.clone() } } else { h.clone() };
+            let force = BackupOptions::default().parent_opts(ParentOptions::default().force(true));
+            let repo = hb.open().and_then(|r| r.to_indexed_ids()).map_err(ek)?;
+            let snap = repo.archive(&force, &LogSource::new(src), new_snap(), &[PathBuf::from(SRC_ROOT)]).map_err(ek)?;
+            drop(repo);
+            match cmd.as_str() {
+                "prune" => {
+                    let hp = DH { be: h.be.with_adv(adv()), key: h.key.clone() };
+                    let popts = PruneOptions::default()
+                        .keep_pack(rustic_core::jiff::Span::new())
+                        .keep_delete(rustic_core::jiff::Span::new())
+                        .instant_delete(true)
+                        .repack_all(true)
+                        .fast_repack(true)
+                        .max_repack(rustic_core::LimitOption::Unlimited);
+                    let repo = hp.open().and_then(|r| r.to_indexed_ids()).map_err(ek)?;
+                    let plan = repo.prune_plan(&popts).map_err(ek)?;
+                    repo.prune(&popts, plan).map_err(ek)?;
+                    Ok((h, snap))
+                }
+                "copy" => {
+                    let h2 = DH::init(DelayBackend::new(seed ^ 0xC0, 0), &run_cfg(1, 1)).map_err(ek)?;
+                    let hc = DH { be: h2.be.with_adv(adv()), key: h2.key.clone() };
+                    let srcr = h.open().and_then(|r| r.to_indexed()).map_err(ek)?;
+                    let dst = hc.open().and_then(|r| r.to_indexed_ids()).map_err(ek)?;
+                    srcr.copy(&dst, [&snap]).map_err(ek)?;
+                    drop(dst);
+                    let snaps = h2.open().and_then(|r| r.get_all_snapshots()).map_err(ek)?;
+                    match snaps.as_slice() {
+                        [s] => Ok((h2, s.clone())),
+                        _ => Err(format!("oracle-fail:big:copy-left-{}-snapshots", snaps.len())),
+                    }
+                }
+                _ => Ok((h, snap)),
+            }
+        })
+    });
+    let (h, snap) = match res {
+        None => return "oracle-fail:big:timeout".into(),
+        Some(Err(e)) => return e,
+        Some(Ok(x)) => x,
+    };
+    let res = watchdog(big_wd(n), move || -> Result<(usize, usize, usize), String> {
+        in_pool(threads, move || {
+            let (stored, indexed, _) = storage_vs_index(&h).map_err(|e| crate::util::errkind(&e))?;
+            if stored != indexed {
+                return Err(format!(
+                    "oracle-fail:big:packs-in-storage-vs-index:{}:{}:unlisted={}",
+                    stored.len(),
+                    indexed.len(),
+                    stored.difference(&indexed).count()
+                ));
+            }
+            let repo = h.open().map_err(|e| crate::util::errkind(&e))?;
+            let res = repo.check(CheckOptions::default()).map_err(|e| crate::util::errkind(&e))?;
+            let mut v: Vec<String> = res
+                .0
+                .iter()
+                .filter(|(l, _)| format!("{l:?}") == "Error")
+                .map(|(_, e)| format!("{e:?}").split(|c: char| !c.is_alphanumeric()).next().unwrap_or("?").to_string())
+                .collect();
+            v.sort();
+            v.dedup();
+            if !v.is_empty() {
+                return Err(format!("oracle-fail:big:check-errors:{}", v.join("+")));
+            }
+            let repo = repo.to_indexed().map_err(|e| crate::util::errkind(&e))?;
+            let refs = referenced(&repo, snap.tree).map_err(|e| format!("oracle-fail:big:snapshot-unreadable:{}", crate::util::errkind(&e)))?;
+            Ok((stored.len(), refs.iter().filter(|(t, _)| *t == 1).count(), refs.iter().filter(|(t, _)| *t == 0).count()))
+        })
+    });
+    match res {
+        None => "oracle-fail:big:oracle-timeout".into(),
+        Some(Err(e)) => e,
+        Some(Ok((_, trees, data))) => format!("ok big dirs={n} trees={trees} data={data}"),
+    }
+}
+
+// ------------------------------------------------------------------------------------------------
+// order: the state an interrupted prune leaves, index files arriving in either order
+
+/// (index id, regular pack ids, to-delete pack ids) of every stored index file
+fn index_shape(h: &DH) -> RusticResult<Vec<(Id, BTreeSet<Id>, BTreeSet<Id>)>> {
+    let repo = h.open()?;
+    let mut v = vec![];
+    for f in repo.stream_files::<IndexFile>()? {
+        let (id, f) = f?;
+        v.push((*id, f.packs.iter().map(|p| *p.id).collect(), f.packs_to_delete.iter().map(|p| *p.id).collect()));
+    }
+    v.sort();
+    Ok(v)
+}
+
+/// the planner alone (hook `plan_from_parts`) on the index files in the given order: sorted (pack, marked, decision) triples
+fn plan_by_hook(h: &DH, snap: &SnapshotFile, order: &[Id], popts: &PruneOptions) -> Result<Vec<String>, String> {
+    use rustic_core::repofile::{IndexId, PackId};
+    let ek = |e: Box<rustic_core::RusticError>| crate::util::errkind(&e);
+    let repo = h.open().map_err(ek)?;
+    let mut files: BTreeMap<Id, IndexFile> = BTreeMap::new();
+    for f in repo.stream_files::<IndexFile>().map_err(ek)? {
+        let (id, f) = f.map_err(ek)?;
+        _ = files.insert(*id, f);
+    }
+    let ordered: Vec<(IndexId, IndexFile)> = order.iter().filter_map(|id| files.remove(id).map(|f| (IndexId::from(*id), f))).collect();
+    let existing: Vec<(PackId, u32)> = h.be.inner.list_with_size(FileType::Pack).map_err(ek)?.into_iter().map(|(id, s)| (PackId::from(id), s)).collect();
+    let repo = repo.to_indexed().map_err(ek)?;
+    let used: Vec<(BlobType, BlobId)> = referenced(&repo, snap.tree)
+        .map_err(ek)?
+        .into_iter()
+        .map(|(t, id)| (if t == 1 { BlobType::Tree } else { BlobType::Data }, BlobId::from(id)))
+        .collect();
+    let cfg = repo.config();
+    let sizer = |t: BlobType| {
+        let (d, g, l) = cfg.packsize(t);
+        let (lo, hi) = cfg.packsize_ok_percents();
+        rustic_core::verif::packer::pack_sizer(d, g, l, 0, lo, hi)
+    };
+    let sizers = rustic_core::verif::prune::pack_sizers(sizer(BlobType::Tree), sizer(BlobType::Data));
+    let rep = rustic_core::verif::prune::plan_from_parts(used, existing, ordered, popts, rustic_core::jiff::Zoned::now(), false, &sizers).map_err(ek)?;
+    let mut v: Vec<String> = rep.decisions.iter().map(|d| format!("{}:{}:{}", d.pack.to_hex().as_str(), u8::from(d.marked), d.to_do)).collect();
+    v.sort();
+    Ok(v)
+}
+
+/// `c13 order <seed.dpack.tpack[.pool]> <src>`: backup; prune that ignores the snapshot (every pack gets marked for deletion);
+/// prune that needs the packs again and recovers them, while the removal of the old index file fails — now some pack is listed
+/// regularly in one index file and as pack-to-delete in another.  On copies of that repository: the planner (hook) on the index
+/// files in both orders and a seeded shuffle, and the real `prune_plan` + `prune` with the to-delete file, resp. the regular
+/// file, arriving LAST (`Adv::late_index`).  Oracles: every order succeeds, the planner decides the same for every pack, the
+/// repository afterwards passes the per-run oracles and references the same blobs.
+fn exec_order(run: &str, src: &str) -> String {
+    let (Some(runs), Some(sa)) = (parse_runs(run), parse_src(src)) else {
+        return "bad-op".into();
+    };
+    let [run] = runs.as_slice() else { return "bad-op".into() };
+    if run.repack.is_some() {
+        return "bad-op".into();
+    }
+    let run = *run;
+    let threads = match run.pool {
+        Pool::Default => 0,
+        Pool::Installed(n) => n,
+        Pool::Global(g) => {
+            let wd = 4 * run_wd(&sa, None, None) + 20;
+            return match in_child(g, wd, &format!("c13 order {}.{}.{}.0 {src}", run.seed, run.dsize, run.tsize)) {
+                Ok(s) => s,
+                Err(e) if e == "timeout" => "oracle-fail:order:timeout".into(),
+                Err(e) => e,
+            };
+        }
+    };
+    let wd = run_wd(&sa, None, None);
+    let sa2 = sa.clone();
+    // 1. build the state
+    let built = watchdog(wd, move || -> Result<(DH, SnapshotFile), String> {
+        in_pool(threads, move || {
+            let ek = |e: Box<rustic_core::RusticError>| crate::util::errkind(&e);
+            let h = DH::init(DelayBackend::new(run.seed, if run.seed == 0 { 0 } else { 1000 }), &run_cfg(run.dsize, run.tsize)).map_err(ek)?;
+            let force = BackupOptions::default().parent_opts(ParentOptions::default().force(true));
+            let repo = h.open().and_then(|r| r.to_indexed_ids()).map_err(ek)?;
+            let snap = repo.archive(&force, &LogSource::new(sa2), new_snap(), &[PathBuf::from(SRC_ROOT)]).map_err(ek)?;
+            drop(repo);
+            // every pack unused -> marked
+            let p1 = PruneOptions::default().keep_pack(rustic_core::jiff::Span::new()).ignore_snaps(vec![snap.id]);
+            let repo = h.open().and_then(|r| r.to_indexed_ids()).map_err(ek)?;
+            let plan = repo.prune_plan(&p1).map_err(ek)?;
+            repo.prune(&p1, plan).map_err(ek)?;
+            drop(repo);
+            // needed again -> recovered; the old index file cannot be removed any more
+            let hf = DH { be: h.be.with_adv(Adv { fail_index_remove: true.into(), ..Adv::default() }), key: h.key.clone() };
+            let p2 = PruneOptions::default();
+            let repo = hf.open().and_then(|r| r.to_indexed_ids()).map_err(ek)?;
+            let plan = repo.prune_plan(&p2).map_err(ek)?;
+            match repo.prune(&p2, plan) {
+                Err(_) => {}
+                Ok(()) => return Err("state-not-reached:interrupted-prune-succeeded".into()),
+            }
+            Ok((h, snap))
+        })
+    });
+    let (h, snap) = match built {
+        None => return "oracle-fail:order:build-timeout".into(),
+        Some(Err(e)) => return e,
+        Some(Ok(x)) => x,
+    };
+    let shape = match index_shape(&h) {
+        Ok(s) => s,
+        Err(e) => return crate::util::errkind(&e),
+    };
+    // an index file with a to-delete entry whose pack another index file lists regularly
+    let mut pair: Option<(Id, Id)> = None;
+    for (d, _, dels) in &shape {
+        for (r, regs, _) in &shape {
+            if d != r && dels.intersection(regs).next().is_some() {
+                pair = pair.or(Some((*d, *r)));
+            }
+        }
+    }
+    let Some((del_file, reg_file)) = pair else {
+        return "state-not-reached:no-pack-regular-and-to-delete".into();
+    };
+    let popts = PruneOptions::default()
+        .keep_pack(rustic_core::jiff::Span::new())
+        .keep_delete(rustic_core::jiff::Span::new())
+        // no repack budget: under a budget WHICH of several equally ranked packs is repacked follows the order of the plan
+        .max_repack(rustic_core::LimitOption::Unlimited)
+        .max_unused(rustic_core::LimitOption::Size(bytesize::ByteSize(0)))
+        .instant_delete(run.seed % 2 == 0);
+    // 2. the real prune, either file arriving last
+    let mut first: Option<BTreeSet<(u8, Id)>> = None;
+    for (name, late) in [("del-first", reg_file), ("reg-first", del_file)] {
+        let store = h.be.inner.store();
+        let mut be = DelayBackend::new(run.seed, h.be.max_us);
+        be.inner = MemBackend::from_store(store);
+        be.adv = Some(Arc::new(Adv { late_index: Some((late, 40)), ..Adv::default() }));
+        let hc = DH { be, key: h.key.clone() };
+        let hc2 = hc.clone();
+        let popts2 = popts.clone();
+        let res = watchdog(wd, move || -> Result<(), String> {
+            in_pool(threads, move || {
+                let ek = |e: Box<rustic_core::RusticError>| crate::util::errkind(&e);
+                let repo = hc2.open().and_then(|r| r.to_indexed_ids()).map_err(ek)?;
+                let plan = repo.prune_plan(&popts2).map_err(ek)?;
+                repo.prune(&popts2, plan).map_err(ek)
+            })
+        });
+        match res {
+            None => return format!("oracle-fail:order:{name}:timeout"),
+            Some(Err(e)) => return format!("oracle-fail:order:{name}:prune:{e}"),
+            Some(Ok(())) => {}
+        }
+        let mut hq = hc.clone();
+        hq.be.max_us = 0;
+        hq.be.adv = None;
+        let (snap2, src2) = (snap.clone(), sa.clone());
+        let refs = match watchdog(wd, move || in_pool(threads, move || state_oracles(&hq, &snap2, &src2, 0))) {
+            None => return format!("oracle-fail:order:{name}:oracle-timeout"),
+            Some(Err(e)) => return e.replacen("run0", &format!("order:{name}"), 1),
+            Some(Ok(r)) => r,
+        };
+        match &first {
+            None => first = Some(refs),
+            Some(r0) if *r0 != refs => return format!("oracle-fail:order:{name}:referenced-blobs-differ"),
+            Some(_) => {}
+        }
+    }
+    // 3. the planner alone, index files in several orders
+    let ids: Vec<Id> = shape.iter().map(|x| x.0).collect();
+    let mut orders: Vec<(&str, Vec<Id>)> = vec![];
+    let rest = |a: Id, b: Id| ids.iter().copied().filter(move |i| *i != a && *i != b);
+    orders.push(("del-first", [del_file, reg_file].into_iter().chain(rest(del_file, reg_file)).collect()));
+    orders.push(("reg-first", [reg_file, del_file].into_iter().chain(rest(del_file, reg_file)).collect()));
+    let mut shuffled = ids.clone();
+    let mut r = Rng::new(run.seed ^ 0x5AFF);
+    for i in (1..shuffled.len()).rev() {
+        shuffled.swap(i, r.below(i as u64 + 1) as usize);
+    }
+    orders.push(("shuffled", shuffled));
+    let mut first_plan: Option<Vec<String>> = None;
+    for (name, order) in &orders {
+        match plan_by_hook(&h, &snap, order, &popts) {
+            Err(e) => return format!("oracle-fail:order:planner:{name}:{e}"),
+            Ok(p) => match &first_plan {
+                None => first_plan = Some(p),
+                Some(p0) if *p0 != p => return format!("oracle-fail:order:planner:{name}:decisions-differ"),
+                Some(_) => {}
+            },
+        }
+    }
+    let refs = first.unwrap();
+    format!("ok runs=2 trees={} data={}", refs.iter().filter(|(t, _)| *t == 1).count(), refs.iter().filter(|(t, _)| *t == 0).count())
 }
 
 // ------------------------------------------------------------------------------------------------
@@ -1146,6 +1662,32 @@ pub fn generate(thorough: bool, rng: &mut Rng, ops: &mut Vec<String>, stats: &mu
         runs.push(format!("{}.{}.{}.{}.r{}", 1 + r.below(10_000), r.pick(&[1u64, 1, 200]), r.pick(&[1u64, 200, 4_000_000]), gen_pool(&mut r, stats), r.pick(&[0u64, 5, 20])));
         ops.push(format!("c13 hist {} {} {}", enc_src(&a), enc_src(&b), runs.join(",")));
     }
+    // backup + copy into a second repository (pack sizes swapped), repeated under the run variations
+    for _ in 0..(if thorough { 40 } else { 4 }) {
+        let mut r = rng.fork();
+        let (a, _) = gen_src_pair(&mut r, stats);
+        stats.hit("c13.copy");
+        ops.push(format!("c13 copy {} {}", enc_src(&a), gen_runs(&mut r, 3, stats)));
+    }
+    // the repository an interrupted prune leaves (a pack regular in one index file, to-delete in another): planner and real
+    // prune with the index files arriving in either order
+    for _ in 0..(if thorough { 60 } else { 6 }) {
+        let mut r = rng.fork();
+        let (a, _) = gen_src_pair(&mut r, stats);
+        stats.hit("c13.order");
+        let sizes = [1u64, 1, 200, 5000, 4_000_000];
+        ops.push(format!("c13 order {}.{}.{}.{} {}", r.below(10_000), r.pick(&sizes), r.pick(&sizes), gen_pool(&mut r, stats), enc_src(&a)));
+    }
+    // more than MAX_COUNT blobs in one command, one blob per pack, slow index writes (the 2nd slower than the 1st)
+    for i in 0..(if thorough { 4 } else { 1 }) {
+        let mut r = rng.fork();
+        let cmd = ["backup", "backup", "prune", "copy"][i];
+        let pool = if r.chance(1, 2) { "0".to_string() } else { format!("{}", r.range(4, 16)) };
+        stats.hit(format!("c13.big.{cmd}"));
+        // 2 n + 2 blobs: the indexer's auto-save threshold is crossed once, with 2-4 % of the run still to come
+        let lo = rustic_core::verif::indexer::MAX_COUNT as u64 / 2 + 50;
+        ops.push(format!("c13 big {}.{pool} {cmd} {} {} {} {}", r.below(1000), r.range(lo, lo + 950), r.range(1500, 2500), r.range(1500, 2500), r.range(3, 8)));
+    }
 }
 
 /// Seconds after which the supervisor kills the child that executes this op, and whether a timeout counts towards
@@ -1157,7 +1699,13 @@ fn budget_of(t: &[&str]) -> Option<(u64, bool)> {
             let n = parse_forest(forest)?.len() + parse_roots(roots)?.len();
             Some((stream_wd(wd, n) + 15, wd == 0))
         }
-        ["run", src, runs] | ["hist", src, _, runs] => {
+        ["big", _, _, dirs, ..] => Some((4 * big_wd(dirs.parse::<u64>().ok().filter(|n| *n <= 100_000)?) + 60, true)),
+        ["order", run, src] => {
+            let sa = parse_src(src)?;
+            _ = parse_runs(run)?;
+            Some((6 * run_wd(&sa, None, None) + 60, true))
+        }
+        ["run", src, runs] | ["copy", src, runs] | ["hist", src, _, runs] => {
             let sa = parse_src(src)?;
             let sb = if let ["hist", _, b, _] = t { Some(parse_src(b)?) } else { None };
             let runs = parse_runs(runs)?;
@@ -1191,6 +1739,9 @@ pub fn exec(t: &[&str]) -> String {
             ["solo", k, a, b, run] => exec_solo(k, a, b, run),
             ["chk", ms] => exec_chk(ms),
             ["snaps", seed, n] => exec_snaps(seed, n),
+            ["copy", src, runs] => exec_run_mode(src, runs, None, true),
+            ["big", seed, cmd, dirs, t1, t2, k] => exec_big(seed, cmd, dirs, t1, t2, k),
+            ["order", run, src] => exec_order(run, src),
             _ => "bad-op".into(),
         }
     })
